@@ -561,11 +561,275 @@ mod acc {
     }
 }
 
+
+// ---------------------------------------------------------------------------------------------------------
+// C01 / C09 / C02 on arbitrary text: every string of length <= 3 (C09) / <= 4 (C01) over the property's character
+// classes, plus fixed-seed random strings up to length 16, plus damaged copies of well-formed documents (C02)
+mod anytext {
+    use super::{esc, Fail, Rng};
+    use std::str::FromStr;
+    use std::panic::{catch_unwind, AssertUnwindSafe};
+
+    pub const DEB_ALPHA: &[char] = &['A', 'b', '-', ':', '#', ' ', '\t', '\n', '\r', '\u{e9}', '\u{1}', '.'];
+    pub const REL_ALPHA: &[char] = &['a', '1', ':', '|', ',', '(', ')', '[', ']', '!', '<', '>', '=', '$', '{', '}', ' ', '\t', '\r', '\n', '%', '\u{e9}'];
+
+    pub fn all_strings(alpha: &[char], maxlen: usize) -> Vec<String> {
+        let mut out = vec![String::new()];
+        let mut layer = vec![String::new()];
+        for _ in 0..maxlen {
+            let mut next = Vec::new();
+            for s in &layer { for c in alpha { let mut t = s.clone(); t.push(*c); next.push(t); } }
+            out.extend(next.iter().cloned());
+            layer = next;
+        }
+        out
+    }
+    pub fn random_strings(r: &mut Rng, alpha: &[char], n: usize, maxlen: usize) -> Vec<String> {
+        (0..n).map(|_| { let l = r.below(maxlen + 1); (0..l).map(|_| *r.pick(alpha)).collect() }).collect()
+    }
+    /// failures of a class listed in /verif/known-findings.txt: remembered (first example per class), printed at the end
+    pub static KNOWN: std::sync::Mutex<Vec<(String, String)>> = std::sync::Mutex::new(Vec::new());
+    fn note_known(class: &str, example: &str) {
+        let mut k = KNOWN.lock().unwrap();
+        if !k.iter().any(|x| x.0 == class) { k.push((class.to_string(), example.to_string())); }
+    }
+    pub fn print_known() {
+        for (c, e) in KNOWN.lock().unwrap().iter() { println!("KNOWN {{\"class\":{},\"example\":{}}}", esc(c), esc(e)); }
+    }
+    fn fail(prop: &str, input: &str, what: &str, expected: String, got: String) -> Fail {
+        Fail { prop: prop.into(), input: input.into(), what: what.into(), expected, got }
+    }
+
+    fn check_c01(s: &str) -> Result<(), Fail> {
+        let r = catch_unwind(AssertUnwindSafe(|| {
+            let (doc, errs) = deb822_lossless::Deb822::from_str_relaxed(s);
+            let strict = deb822_lossless::Deb822::from_str(s);
+            (doc.to_string(), errs.len(), strict.map(|d| d.to_string()).ok())
+        }));
+        match r {
+            Err(_) => Err(fail("C01", s, "the lossless reader panics", "a value".into(), "panic".into())),
+            Ok((out, nerr, strict)) => {
+                if out != s { return Err(fail("C01", s, "the tolerant reader does not reproduce the text", esc(s), esc(&out))); }
+                if strict.is_some() != (nerr == 0) { return Err(fail("C01", s, "the strict reader does not fail exactly when the tolerant reader reports an error", format!("strict ok == {}", nerr == 0), format!("strict ok == {}", strict.is_some()))); }
+                if let Some(t) = strict { if t != s { return Err(fail("C01", s, "the strict reader does not reproduce the text", esc(s), esc(&t))); } }
+                Ok(())
+            }
+        }
+    }
+    pub fn run_c01() -> Result<usize, Fail> {
+        let mut r = Rng(crate::seed_mix(0x6A09E667F3BCC909));
+        let mut inputs = all_strings(DEB_ALPHA, 4);
+        inputs.extend(random_strings(&mut r, DEB_ALPHA, 20000 * crate::scale(), 16));
+        for s in &inputs { check_c01(s)?; }
+        Ok(inputs.len())
+    }
+
+    fn check_c09(s: &str) -> Result<(), Fail> {
+        use debian_control::lossless::relations::{Entry, Relation, Relations};
+        let r = catch_unwind(AssertUnwindSafe(|| {
+            let (a, ea) = Relations::parse_relaxed(s, true);
+            let (b, eb) = Relations::parse_relaxed(s, false);
+            let strict = Relations::from_str(s).map(|x| x.to_string()).ok();
+            let e = Entry::from_str(s).map(|x| x.to_string()).ok();
+            let rel = Relation::from_str(s).map(|x| x.to_string()).ok();
+            (a.to_string(), ea.len(), b.to_string(), eb.len(), strict, e, rel)
+        }));
+        match r {
+            Err(_) => Err(fail("C09", s, "the lossless relations reader panics", "a value".into(), "panic".into())),
+            Ok((a, _ea, b, eb, strict, e, rel)) => {
+                if a != s { return Err(fail("C09", s, "parse_relaxed(_, true) does not reproduce the text", esc(s), esc(&a))); }
+                if b != s { return Err(fail("C09", s, "parse_relaxed(_, false) does not reproduce the text", esc(s), esc(&b))); }
+                if strict.is_some() != (eb == 0) { return Err(fail("C09", s, "Relations::from_str does not succeed exactly when parse_relaxed(_, false) reports no error", format!("ok == {}", eb == 0), format!("ok == {}", strict.is_some()))); }
+                if let Some(t) = strict { if t != s { return Err(fail("C09", s, "Relations::from_str does not reproduce the text", esc(s), esc(&t))); } }
+                // listed known finding (class single-reader-drops-outer-separators): the single-entry / single-relation readers
+                // return the ENTRY / RELATION node of the parsed field, so separators and whitespace around it are not printed.
+                // Anything else that differs is reported.
+                let outer = |c: char| c == ',' || c == ' ' || c == '\t' || c == '\r' || c == '\n';
+                for (name, got) in [("Entry::from_str", e), ("Relation::from_str", rel)] {
+                    if let Some(t) = got {
+                        if t != s {
+                            let around = s.find(t.as_str()).map(|i| s[..i].chars().all(outer) && s[i + t.len()..].chars().all(outer)).unwrap_or(false);
+                            if !t.is_empty() && around { note_known("C09:single-reader-drops-outer-separators", &format!("{}({:?}) is accepted and prints {:?}", name, s, t)); }
+                            else { return Err(fail("C09", s, &format!("{} accepts the text but prints something else", name), esc(s), esc(&t))); }
+                        }
+                    }
+                }
+                Ok(())
+            }
+        }
+    }
+    pub fn run_c09() -> Result<usize, Fail> {
+        let mut r = Rng(crate::seed_mix(0xBB67AE8584CAA73B));
+        let mut inputs = all_strings(REL_ALPHA, 3);
+        inputs.extend(random_strings(&mut r, REL_ALPHA, 20000 * crate::scale(), 14));
+        for s in &inputs { check_c09(s)?; }
+        Ok(inputs.len())
+    }
+
+    // ---- C02: every entry point returns (a value or an error) on every input -------------------------------------
+    const TEMPLATES: &[&str] = &[
+        "Source: foo\nMaintainer: A B <a@b.c>\nBuild-Depends: debhelper (>= 12~), libx-dev [!i386] <!nocheck>\nVcs-Git: https://x/y.git -b main [sub]\n\nPackage: foo\nArchitecture: any\nMulti-Arch: same\nPriority: optional\nDepends: ${misc:Depends}, a | b (<< 1:2.0-1)\nDescription: short\n long\n .\n more\n",
+        "Format: https://www.debian.org/doc/packaging-manuals/copyright-format/1.0/\nUpstream-Name: x\n\nFiles: *\n src/*.c\nCopyright: 2020 A\nLicense: GPL-2+\n text\n\nLicense: GPL-2+\n full text\n",
+        "Description: fix it\n more\nAuthor: A B <a@b.c>\nOrigin: upstream, https://x/commit/1\nForwarded: not-needed\nLast-Update: 2020-01-02\nApplied-Upstream: 1.2, commit:abc\nBug-Debian: https://bugs.debian.org/1\n---\n",
+        "Types: deb deb-src\nURIs: http://deb.debian.org/debian\nSuites: stable\nComponents: main contrib\nSigned-By: /usr/share/keyrings/k.gpg\nEnabled: yes\nAllow-Insecure: force\n",
+        "Types: deb\nURIs: http://x\nSuites: s\nComponents: main\nSigned-By:\n -----BEGIN PGP PUBLIC KEY BLOCK-----\n .\n mDMEY\n -----END PGP PUBLIC KEY BLOCK-----\n",
+        "Format: 1.8\nDate: Mon, 01 Jan 2020 00:00:00 +0000\nSource: foo\nBinary: foo\nArchitecture: source\nVersion: 1.0-1\nDistribution: unstable\nUrgency: medium\nMaintainer: A <a@b.c>\nChanges:\n foo (1.0-1) unstable; urgency=medium\nChecksums-Sha1:\n da39a3ee5e6b4b0d3255bfef95601890afd80709 12 foo.dsc\nChecksums-Sha256:\n e3b0c44298fc1c149afbf4c8996fb92427ae41e4649b934ca495991b7852b855 12 foo.dsc\nFiles:\n d41d8cd98f00b204e9800998ecf8427e 12 utils optional foo.dsc\n",
+        "Format: 1.0\nSource: foo\nBinary: foo bar\nArchitecture: amd64\nVersion: 1.0-1\nBuild-Origin: Debian\nBuild-Architecture: amd64\nBuild-Date: Mon, 01 Jan 2020 00:00:00 +0000\nInstalled-Build-Depends:\n a (= 1),\n b (= 2)\nEnvironment:\n LANG=\"C\"\n X=\"a=b\"\nChecksums-Md5:\n d41d8cd98f00b204e9800998ecf8427e 12 foo.deb\n",
+        "Date: Mon, 01 Jan 2020 00:00:00 +0000\nFtpmaster: A B\nSuite: unstable\nSources:\n foo_1.0-1\nBinaries:\n foo_1.0-1 [amd64, i386]\nReason: RoQA; dead\nBug: 123\n",
+        "-----BEGIN PGP SIGNED MESSAGE-----\nHash: SHA256\n\nSource: foo\n- -dash\n-----BEGIN PGP SIGNATURE-----\n\niQ==\n-----END PGP SIGNATURE-----\n",
+        "Package: foo\nVersion: 1:2.0-1\nArchitecture: amd64\nInstalled-Size: 12\nSize: 3\nFilename: pool/f/foo.deb\nMD5sum: d41d8cd98f00b204e9800998ecf8427e\nSHA256: e3b0c44298fc1c149afbf4c8996fb92427ae41e4649b934ca495991b7852b855\nDepends: a, b\nDescription: x\n",
+        "Origin: Debian\nLabel: Debian\nSuite: stable\nCodename: x\nDate: Sat, 01 Jan 2022 00:00:00 UTC\nArchitectures: amd64 i386\nComponents: main\nDescription: d\nMD5Sum:\n d41d8cd98f00b204e9800998ecf8427e 12 main/x\n",
+        "git https://x/y.git -b main [dir]", "A B <a@b.c>", "foo deb utils optional arch=any profile=!stage1", "da39a3ee5e6b4b0d3255bfef95601890afd80709 12 foo.dsc",
+        "d41d8cd98f00b204e9800998ecf8427e 12 utils optional foo.dsc", "upstream, https://x", "commit:abc", "not-needed", "GPL-2+\n text", "foo (>= 1:2.0~rc1) [amd64 !i386] <!a b> <c>",
+    ];
+    fn damaged(r: &mut Rng, t: &str) -> String {
+        let cs: Vec<char> = t.chars().collect();
+        let mut out = cs.clone();
+        let pool: &[char] = &['\n', ' ', ':', '#', '\r', '\u{e9}', '(', '[', '<', '$', '{', '-', ',', '\t', 'x', '=', '\u{0}'];
+        for _ in 0..1 + r.below(3) {
+            if out.is_empty() { break; }
+            let i = r.below(out.len());
+            match r.below(5) {
+                0 => { out.truncate(i); }
+                1 => { out.remove(i); }
+                2 => { out.insert(i, *r.pick(pool)); }
+                3 => { out[i] = *r.pick(pool); }
+                _ => { let j = r.below(out.len()); let (a, b) = (i.min(j), i.max(j)); out.drain(a..b); }
+            }
+        }
+        out.into_iter().collect()
+    }
+    macro_rules! ep { ($v:ident, $name:expr, $body:expr) => { $v.push(($name, Box::new($body) as Box<dyn Fn(&str) + Sync>)); }; }
+    pub fn entry_points() -> Vec<(&'static str, Box<dyn Fn(&str) + Sync>)> {
+        let mut v: Vec<(&'static str, Box<dyn Fn(&str) + Sync>)> = Vec::new();
+        ep!(v, "deb822_lossless::Deb822::from_str", |s: &str| { let _ = deb822_lossless::Deb822::from_str(s); });
+        ep!(v, "deb822_lossless::Deb822::from_str_relaxed", |s: &str| { let _ = deb822_lossless::Deb822::from_str_relaxed(s); });
+        ep!(v, "deb822_lossless::Deb822::read", |s: &str| { let _ = deb822_lossless::Deb822::read(s.as_bytes()); });
+        ep!(v, "deb822_lossless::Deb822::read_relaxed", |s: &str| { let _ = deb822_lossless::Deb822::read_relaxed(s.as_bytes()); });
+        ep!(v, "deb822_lossless::Paragraph::from_str", |s: &str| { let _ = deb822_lossless::Paragraph::from_str(s); });
+        ep!(v, "deb822_lossless::lossy::Deb822::from_str", |s: &str| { let _ = deb822_lossless::lossy::Deb822::from_str(s); });
+        ep!(v, "deb822_lossless::lossy::Paragraph::from_str", |s: &str| { let _ = deb822_lossless::lossy::Paragraph::from_str(s); });
+        ep!(v, "lossless Relations::parse_relaxed(true)", |s: &str| { let _ = debian_control::lossless::relations::Relations::parse_relaxed(s, true); });
+        ep!(v, "lossless Relations::parse_relaxed(false)", |s: &str| { let _ = debian_control::lossless::relations::Relations::parse_relaxed(s, false); });
+        ep!(v, "lossless Relations::from_str", |s: &str| { let _ = debian_control::lossless::relations::Relations::from_str(s); });
+        ep!(v, "lossless Entry::from_str", |s: &str| { let _ = debian_control::lossless::relations::Entry::from_str(s); });
+        ep!(v, "lossless Relation::from_str", |s: &str| { let _ = debian_control::lossless::relations::Relation::from_str(s); });
+        ep!(v, "lossy Relations::from_str", |s: &str| { let _ = debian_control::lossy::Relations::from_str(s); });
+        ep!(v, "lossy Relation::from_str", |s: &str| { let _ = debian_control::lossy::Relation::from_str(s); });
+        ep!(v, "lossless Control::from_str", |s: &str| { let _ = debian_control::lossless::Control::from_str(s); });
+        ep!(v, "lossless Control::read", |s: &str| { let _ = debian_control::lossless::Control::read(s.as_bytes()); });
+        ep!(v, "lossless Control::read_relaxed", |s: &str| { let _ = debian_control::lossless::Control::read_relaxed(s.as_bytes()); });
+        ep!(v, "lossy Control::from_str", |s: &str| { let _ = debian_control::lossy::Control::from_str(s); });
+        ep!(v, "lossless Buildinfo::from_str", |s: &str| { let _ = debian_control::lossless::buildinfo::Buildinfo::from_str(s); });
+        ep!(v, "lossy Buildinfo::from_str", |s: &str| { let _ = debian_control::lossy::buildinfo::Buildinfo::from_str(s); });
+        ep!(v, "lossless apt::Source::from_str", |s: &str| { let _ = debian_control::lossless::apt::Source::from_str(s); });
+        ep!(v, "lossless apt::Package::from_str", |s: &str| { let _ = debian_control::lossless::apt::Package::from_str(s); });
+        ep!(v, "lossless apt::Release::from_str", |s: &str| { let _ = debian_control::lossless::apt::Release::from_str(s); });
+        ep!(v, "lossy apt::Source::from_str", |s: &str| { let _ = debian_control::lossy::apt::Source::from_str(s); });
+        ep!(v, "lossy apt::Package::from_str", |s: &str| { let _ = debian_control::lossy::apt::Package::from_str(s); });
+        ep!(v, "lossy ftpmaster::Removal::from_str", |s: &str| { let _ = debian_control::lossy::ftpmaster::Removal::from_str(s); });
+        ep!(v, "changes::Changes::read", |s: &str| { let _ = debian_control::lossless::changes::Changes::read(s.as_bytes()); });
+        ep!(v, "changes::Changes::read_relaxed", |s: &str| { let _ = debian_control::lossless::changes::Changes::read_relaxed(s.as_bytes()); });
+        ep!(v, "changes::File::from_str", |s: &str| { let _ = debian_control::lossless::changes::File::from_str(s); });
+        ep!(v, "vcs::ParsedVcs::from_str", |s: &str| { let _ = debian_control::vcs::ParsedVcs::from_str(s); });
+        ep!(v, "vcs::Vcs::from_field(Git)", |s: &str| { let _ = debian_control::vcs::Vcs::from_field("Git", s); });
+        ep!(v, "vcs::Vcs::from_field(name = text)", |s: &str| { let _ = debian_control::vcs::Vcs::from_field(s, "https://x"); });
+        ep!(v, "pgp::strip_pgp_signature", |s: &str| { let _ = debian_control::pgp::strip_pgp_signature(s); });
+        ep!(v, "parse_identity", |s: &str| { let _ = debian_control::parse_identity(s); });
+        ep!(v, "BuildProfile::from_str", |s: &str| { let _ = debian_control::relations::BuildProfile::from_str(s); });
+        ep!(v, "VersionConstraint::from_str", |s: &str| { let _ = debian_control::relations::VersionConstraint::from_str(s); });
+        ep!(v, "Priority::from_str", |s: &str| { let _ = debian_control::fields::Priority::from_str(s); });
+        ep!(v, "Sha1Checksum::from_str", |s: &str| { let _ = debian_control::fields::Sha1Checksum::from_str(s); });
+        ep!(v, "Sha256Checksum::from_str", |s: &str| { let _ = debian_control::fields::Sha256Checksum::from_str(s); });
+        ep!(v, "Sha512Checksum::from_str", |s: &str| { let _ = debian_control::fields::Sha512Checksum::from_str(s); });
+        ep!(v, "Md5Checksum::from_str", |s: &str| { let _ = debian_control::fields::Md5Checksum::from_str(s); });
+        ep!(v, "PackageListEntry::from_str", |s: &str| { let _ = debian_control::fields::PackageListEntry::from_str(s); });
+        ep!(v, "Urgency::from_str", |s: &str| { let _ = debian_control::fields::Urgency::from_str(s); });
+        ep!(v, "MultiArch::from_str", |s: &str| { let _ = debian_control::fields::MultiArch::from_str(s); });
+        ep!(v, "lossy Copyright::from_str", |s: &str| { let _ = debian_copyright::lossy::Copyright::from_str(s); });
+        ep!(v, "lossless Copyright::from_str", |s: &str| { let _ = debian_copyright::lossless::Copyright::from_str(s); });
+        ep!(v, "lossless Copyright::from_str_relaxed", |s: &str| { let _ = debian_copyright::lossless::Copyright::from_str_relaxed(s); });
+        ep!(v, "debian_copyright::License::from_str", |s: &str| { let _ = debian_copyright::License::from_str(s); });
+        ep!(v, "dep3 lossy PatchHeader::from_str", |s: &str| { let _ = dep3::lossy::PatchHeader::from_str(s); });
+        ep!(v, "dep3 lossless PatchHeader::from_str", |s: &str| { let _ = dep3::lossless::PatchHeader::from_str(s); });
+        ep!(v, "dep3::Forwarded::from_str", |s: &str| { let _ = dep3::Forwarded::from_str(s); });
+        ep!(v, "dep3::OriginCategory::from_str", |s: &str| { let _ = dep3::OriginCategory::from_str(s); });
+        ep!(v, "dep3::Origin::from_str", |s: &str| { let _ = dep3::Origin::from_str(s); });
+        ep!(v, "dep3::AppliedUpstream::from_str", |s: &str| { let _ = dep3::AppliedUpstream::from_str(s); });
+        ep!(v, "apt_sources::RepositoryType::from_str", |s: &str| { let _ = apt_sources::RepositoryType::from_str(s); });
+        ep!(v, "apt_sources::YesNoForce::from_str", |s: &str| { let _ = apt_sources::YesNoForce::from_str(s); });
+        ep!(v, "apt_sources::Repositories::from_str", |s: &str| { let _ = apt_sources::Repositories::from_str(s); });
+        ep!(v, "apt_sources::signature::Signature::from_str", |s: &str| { let _ = apt_sources::signature::Signature::from_str(s); });
+        v
+    }
+    pub fn run_c02() -> Result<usize, Fail> {
+        let mut r = Rng(crate::seed_mix(0x3C6EF372FE94F82B));
+        let mut inputs = all_strings(DEB_ALPHA, 3);
+        inputs.extend(all_strings(REL_ALPHA, 2));
+        inputs.extend(random_strings(&mut r, DEB_ALPHA, 3000 * crate::scale(), 16));
+        inputs.extend(random_strings(&mut r, REL_ALPHA, 3000 * crate::scale(), 16));
+        for t in TEMPLATES { inputs.push(t.to_string()); }
+        for _ in 0..4000 * crate::scale() { let t = *r.pick(TEMPLATES); inputs.push(damaged(&mut r, t)); }
+        let eps = entry_points();
+        let progress = std::env::var("VWIT_PROGRESS").ok();
+        let nthreads = 8usize;
+        let first: Option<(usize, usize)> = std::thread::scope(|sc| {
+            let mut hs = Vec::new();
+            for k in 0..nthreads {
+                let inputs = &inputs; let eps = &eps; let progress = &progress;
+                hs.push(sc.spawn(move || {
+                    let pf = progress.as_ref().map(|p| format!("{}.{}", p, k));
+                    let mut i = k;
+                    let mut found = None;
+                    'outer: while i < inputs.len() {
+                        for (j, (name, f)) in eps.iter().enumerate() {
+                            if let Some(p) = &pf { let _ = std::fs::write(p, format!("{} on {:?}", name, inputs[i])); }
+                            if catch_unwind(AssertUnwindSafe(|| f(&inputs[i]))).is_err() { found = Some((i, j)); break 'outer; }
+                        }
+                        i += nthreads;
+                    }
+                    if let Some(p) = &pf { let _ = std::fs::remove_file(p); }
+                    found
+                }));
+            }
+            hs.into_iter().filter_map(|h| h.join().ok().flatten()).min()
+        });
+        if let Some((i, j)) = first {
+            // shrink: drop characters while the same entry point still panics
+            let f = &eps[j].1;
+            let mut cur: Vec<char> = inputs[i].chars().collect();
+            loop {
+                let mut progressed = false;
+                for k in 0..cur.len() {
+                    let mut c = cur.clone(); c.remove(k);
+                    let t: String = c.iter().collect();
+                    if catch_unwind(AssertUnwindSafe(|| f(&t))).is_err() { cur = c; progressed = true; break; }
+                }
+                if !progressed { break; }
+            }
+            let t: String = cur.into_iter().collect();
+            return Err(fail("C02", &t, &format!("{} panics", eps[j].0), "a value or an error".into(), "panic".into()));
+        }
+        Ok(inputs.len() * eps.len())
+    }
+}
+
 const N_DOCS: usize = 4000;
 fn main() {
     let args: Vec<String> = std::env::args().collect();
     if args.len() < 2 { eprintln!("usage: vwit <C03|C04|C06|C08>"); std::process::exit(3); }
     let prop = args[1].as_str();
+    if prop == "C01" {
+        // arbitrary text first, then the well-formed documents of C03 (below)
+        match anytext::run_c01() { Ok(n) => { eprintln!("vwit C01: no failing input among {} arbitrary texts", n); } Err(f) => f.print_and_exit() }
+    }
+    if prop == "C09" {
+        match anytext::run_c09() { Ok(n) => { anytext::print_known(); eprintln!("vwit C09: no unlisted failing input among {} texts", n); return; } Err(f) => f.print_and_exit() }
+    }
+    if prop == "C02" {
+        std::panic::set_hook(Box::new(|_| {}));
+        match anytext::run_c02() { Ok(n) => { eprintln!("vwit C02: no panic in {} calls", n); return; } Err(f) => f.print_and_exit() }
+    }
     if prop == "C15" {
         match acc::run() { Ok(n) => { eprintln!("vwit C15: no failing input among {} Buildinfo records", n); return; } Err(f) => f.print_and_exit() }
     }
